@@ -58,3 +58,8 @@ package rewrite
 //@ // constructors and helpers that this directive's setup calls but that live outside setup.go: the same safety sweep
 //@ // (index, slice, division, nil-map store, nil dereference, explicit panic) as for the setup code itself
 //@ use @verif/specs/stdlib.spec:stdlib
+
+//@ unit rewrite_to_sweep props=C19 files=to.go nilchecks=on nonnil_params=on filter=`.`
+//@ // the `to` part of a rewrite rule works on the request URL (path, query, fragment) and stats candidate files: safety sweep
+//@ use @verif/specs/stdlib.spec:stdlib
+//@ use @verif/specs/stdlib.spec:nethttp_api
